@@ -87,7 +87,9 @@ def runs(ctx: Ctx):
             plan.append((rng.random() * 3, oip, 6445, bad_reply(kind, rng, oip)))
         plan.sort(key=lambda x: x[0])
         target = plan[0][1] if single else "255.255.255.255"
-        v = disc.run_discovery(plan, target=target, single=single)
+        # now and then the probes to ONE of the two ports cannot be sent (local firewall, no route): the devices answering the other probe are found
+        fail_port = [None, None, None, 20086, None, 6445][k % 6]
+        v = disc.run_discovery(plan, target=target, single=single, udp_send_error=(lambda addr, fp=fail_port: addr is not None and addr[1] == fp) if fail_port else None)
         v.pop("devices", None)
         out.append(v)
         k += 1
@@ -127,17 +129,19 @@ def other_type_connect_runs(ctx: Ctx):
     be refreshed by this library, but they answered with a well-formed reply and are reported with their identity all the same."""
     rng = ctx.rng
     out = []
-    for k in range(ctx.pick(10, 120)):
+    for k in range(ctx.pick(18, 150)):
         idents = [rand_identity(rng, typ=rng.choice([0xA1, 0xCC, 0xE2, 0xFA, 0xB8, rng.randrange(256)]), port=6444)] + \
-                 [rand_identity(rng, typ=0xAC, port=6444) for _ in range(rng.choice([0, 1]))]
+                 [rand_identity(rng, typ=0xAC, port=6444) for _ in range(1 if k % 3 == 2 else rng.choice([0, 1]))]
         plan = []
         for j, ident in enumerate(idents):
             ip = "10.4.%d.%d" % (k % 250, 1 + j)
             plan.append((rng.choice([0.2, 1.5, 3.0]), ip, 6445, build(rng, ident, ip, 2)))
         plan.sort(key=lambda x: x[0])
         single = len(idents) == 1 and k % 2 == 0
+        def unreachable(loop, net):
+            net.connect_mode = "refuse"          # the TCP connect fails (refused, no route to host, ...: the OSError family)
         v = disc.run_discovery(plan, target=plan[0][1] if single else "255.255.255.255", single=single, auto_connect=True,
-                               tcp_devices=(lambda loop, net: landev.LanDevice(loop, net, acdev.ACModel(), version=2)) if k % 3 else (lambda loop, net: None))
+                               tcp_devices=[lambda loop, net: landev.LanDevice(loop, net, acdev.ACModel(), version=2), lambda loop, net: None, unreachable][k % 3])
         v.pop("devices", None)
         out.append(v)
     return out
